@@ -1276,7 +1276,9 @@ func dependsOnCachedContent(w *World, G *ssa.Function, get ssa.CallInstruction, 
 		if isErrTest {
 			continue
 		}
-		if dependsOn(w, br.Cond, func(x ssa.Value) bool { return targets[x] || (getV != nil && x == getV) }) {
+		// only what the entry was decoded into: a test of the raw entry (empty?) selects between the
+		// hit path and the miss path, which applies the setting anyway
+		if dependsOn(w, br.Cond, func(x ssa.Value) bool { return targets[x] }) {
 			return true
 		}
 	}
